@@ -568,6 +568,53 @@ class RegistrySameName(Harness):
         return tuple(out)
 
 
+class TotpThreads(Harness):
+    """after initialisation, concurrent generate() / match() calls on DIFFERENT TOTP objects are independent of each other:
+    every plain function and method of passlib.totp is instrumented (whatever it is called), so module-level scratch state
+    shared between two calls gets a schedule point in between"""
+
+    name = "totp_threads"
+    KEYS = {"a": bytes(range(1, 21)), "b": bytes(range(101, 133))}
+
+    def __init__(self, ops):
+        self.ops = ops
+
+    def codes(self):
+        import types
+
+        import passlib.totp as T
+
+        cs = [v for v in vars(T).values() if isinstance(v, types.FunctionType) and v.__module__ == T.__name__]
+        for cls in (T.TOTP, T.TotpToken, T.TotpMatch):
+            for v in vars(cls).values():
+                f = getattr(v, "__func__", v)
+                if isinstance(f, types.FunctionType):
+                    cs.append(f)
+        return cs
+
+    def fresh(self):
+        import passlib.totp as T
+
+        objs = {"a": T.TOTP(self.KEYS["a"], format="raw", digits=6, period=30),
+                "b": T.TOTP(self.KEYS["b"], format="raw", alg="sha256", digits=8, period=30)}
+        for o in objs.values():
+            o.generate(0)  # (initialised: the keyed HMAC of each object is built)
+        return objs
+
+    def body(self, st, op):
+        kind, which, t = op.split(":")
+        o, t = st[which], int(t)
+        if kind == "gen":
+            return lambda: (lambda tok: (tok.token, tok.counter))(o.generate(t))
+        if kind == "match":
+            code = o.generate(t).token
+            return lambda: (lambda m: (m.counter, m.time))(o.match(code, t, window=30))
+        raise KeyError(op)
+
+    def post(self, st):
+        return tuple((k, st[k].generate(59).token) for k in sorted(st))
+
+
 class ContextRecords(Harness):
     name = "context_records"
 
@@ -855,6 +902,8 @@ def make_harness(spec):
         return RegistryImportDirect(ops)
     if kind == "registry_same_name":
         return RegistrySameName(ops)
+    if kind == "totp_threads":
+        return TotpThreads(ops)
     if kind == "context_records":
         return ContextRecords(ops)
     if kind == "post_init":
@@ -1043,6 +1092,8 @@ def harness_specs(quick):
     add("registry_same_name", ("attr:ldap_des_crypt", "get:ldap_des_crypt"), b2)
     add("registry_same_name", ("get:ldap_salted_sha1", "attr:ldap_salted_sha1"), b2)
     add("registry_same_name", ("get:django_bcrypt", "get:django_bcrypt"), 1)
+    add("totp_threads", ("gen:a:59", "gen:b:1111111109"), 1)
+    add("totp_threads", ("gen:a:1234567890", "match:b:2000000000"), 1)
     add("registry_import_direct", ("import", "get:django_salted_sha1"), 1)
     add("registry_import_direct", ("import", "attr:django_pbkdf2_sha256"), 1)
     add("context_records", ("verify_admin", "needs_update_admin"), b2)
